@@ -52,12 +52,36 @@ static size_t count_load(const unsigned char* b, size_t n, int* preserved, int* 
   return c;
 }
 
+/* the bytes as the only chunk (and as the middle one of three) of an indefinite text string: decoding must accept it
+ * whatever its content, and the chunk's count must be the strict count of its own bytes */
+static size_t count_chunk(const unsigned char* b, size_t n, int* preserved, int* loaded) {
+  unsigned char* in = malloc(n + 16);
+  size_t m = 0;
+  in[m++] = 0x7f; in[m++] = 0x61; in[m++] = 'a';
+  if (n < 24) in[m++] = (unsigned char)(0x60 + n); else { in[m++] = 0x78; in[m++] = (unsigned char)n; }
+  memcpy(in + m, b, n); m += n;
+  in[m++] = 0x62; in[m++] = 0xc3; in[m++] = 0xa9;
+  in[m++] = 0xff;
+  struct cbor_load_result r;
+  cbor_item_t* s = n < 256 ? cbor_load(in, m, &r) : NULL;
+  free(in);
+  if (n >= 256) return (size_t)-2;
+  if (!s || !cbor_isa_string(s) || !cbor_string_is_indefinite(s) || cbor_string_chunk_count(s) != 3 || r.read != m) { *loaded = 0; if (s) cbor_decref(&s); return (size_t)-1; }
+  cbor_item_t* c = cbor_string_chunks_handle(s)[1];
+  size_t cnt = cbor_string_codepoint_count(c);
+  if (cbor_string_length(c) != n || memcmp(cbor_string_handle(c), b, n)) *preserved = 0;
+  if (cbor_string_codepoint_count(cbor_string_chunks_handle(s)[0]) != 1 || cbor_string_codepoint_count(cbor_string_chunks_handle(s)[2]) != 1) *preserved = 0;
+  cbor_decref(&s);
+  return cnt;
+}
+
 static void class_seq(const int* cls, int k, int full_paths) {
   unsigned char rep[4], rep2[4], b[4];
   for (int i = 0; i < k; i++) { rep[i] = (unsigned char)clo[cls[i]]; rep2[i] = (unsigned char)chi[cls[i]]; }
   int preserved = 1, loaded = 1, uniform = 1;
   size_t c0 = count_set(rep, k, &preserved), cb = count_build(rep, k, &preserved), cl = count_load(rep, k, &preserved, &loaded);
   size_t cr = count_reattach(rep, k, &preserved);
+  size_t cc = count_chunk(rep, k, &preserved, &loaded);
   unsigned long total = 1;
   int size[4];
   for (int i = 0; i < k; i++) { size[i] = chi[cls[i]] - clo[cls[i]] + 1; total *= size[i]; }
@@ -66,6 +90,7 @@ static void class_seq(const int* cls, int k, int full_paths) {
     for (int i = k - 1; i >= 0; i--) { b[i] = (unsigned char)(clo[cls[i]] + t % size[i]); t /= size[i]; }
     if (count_set(b, k, &preserved) != c0) uniform = 0;
     if (full_paths || v % 61 == 0) {
+      if (v % 7 == 0 && count_chunk(b, k, &preserved, &loaded) != c0) uniform = 0;
       if (count_build(b, k, &preserved) != c0) uniform = 0;
       if (count_load(b, k, &preserved, &loaded) != c0) uniform = 0;
     }
@@ -79,6 +104,7 @@ static void class_seq(const int* cls, int k, int full_paths) {
   vh_kint("count_b", (long long)cb);
   vh_kint("count_l", (long long)cl);
   vh_kint("count_r", (long long)cr);
+  vh_kint("count_c", (long long)cc);
   vh_kbool("uniform", uniform);
   vh_kbool("preserved", preserved);
   vh_kbool("loaded", loaded);
@@ -105,12 +131,14 @@ static void txt_line(const unsigned char* b, size_t n) {
   int preserved = 1, loaded = 1;
   size_t a = count_set(b, n, &preserved), c = count_build(b, n, &preserved), d = count_load(b, n, &preserved, &loaded);
   size_t e = count_reattach(b, n, &preserved);
+  size_t g = count_chunk(b, n, &preserved, &loaded);
   fputs("{\"e\":\"txt\"", vh_out);
   vh_kbytes("b", b, n);
   vh_kint("cp_set", (long long)a);
   vh_kint("cp_build", (long long)c);
   vh_kint("cp_load", (long long)d);
   vh_kint("cp_reattach", (long long)e);
+  vh_kint("cp_chunk", n < 256 ? (long long)g : (long long)a);
   vh_kbool("loaded", loaded);
   vh_kbool("same", preserved);
   fputs("}\n", vh_out);
